@@ -1,6 +1,6 @@
 module verif.local/harness
 
-go 1.18
+go 1.25
 
 require (
 	github.com/akrylysov/pogreb v0.0.0
